@@ -31,6 +31,8 @@ from .position_codec import PositionCodec
 # TODO: this is not the best e.g. we capture numbers
 RE_END_WORD = re.compile("^[A-Za-z_0-9]*")
 RE_START_WORD = re.compile("[A-Za-z_0-9]*$")
+# Lines end at LF, CRLF or CR only (unlike ``str.splitlines``)
+RE_LINE = re.compile(r"[^\r\n]*(?:\r\n|\r|\n)|[^\r\n]+")
 
 logger = logging.getLogger(__name__)
 
@@ -164,7 +166,7 @@ class TextDocument(object):
 
     @property
     def lines(self) -> List[str]:
-        return self.source.splitlines(True)
+        return RE_LINE.findall(self.source)
 
     def offset_at_position(self, client_position: types.Position) -> int:
         """Return the character offset pointed at by the given client_position."""
